@@ -8,7 +8,7 @@ BASELINE = json.load(open('/root/.vp/BASELINE.json'))['cmd'] if os.path.exists('
 CHECKS = {
  "C01": ("exploration",
    "bounded-exhaustive enumeration of (current, desired) schema pairs executed on a real SQLite engine through the schema-apply flow, judged by re-diff and by an independent engine-catalogue comparison",
-   "All ordered pairs of schema states built from <=1 feature (quick; plus 2-feature states against their sub-states) or <=2 features (thorough, ~460k pairs) out of 56 elementary SQLite features: the current state is created by our own DDL (two spellings), the desired one is HCL from our own writer; the real inspect/diff/plan/apply runs in a transaction; the second diff must be empty, no statement may be rejected, and the engine catalogue read by our own pragma dump must equal that of the desired schema created directly. The desired state is also taken from atlas' own export of an inspected database, the database may hold a view over the changed table, and a CLI slice runs the real `atlas schema apply --auto-approve` (HCL file and live database as sources), `schema diff` (must report synced) and a second apply (must be a no-op).",
+   "All ordered pairs of schema states built from <=1 feature (quick; plus 2-feature states against their sub-states) or <=2 features (thorough, ~460k pairs) out of 53 elementary SQLite features: the current state is created by our own DDL (two spellings), the desired one is HCL from our own writer; the real inspect/diff/plan/apply runs in a transaction; the second diff must be empty, no statement may be rejected, and the engine catalogue read by our own pragma dump must equal that of the desired schema created directly. The desired state is also taken from atlas' own export of an inspected database, the database may hold a view over the changed table, and a CLI slice runs the real `atlas schema apply --auto-approve` (HCL file and live database as sources), `schema diff` (must report synced) and a second apply (must be a no-op).",
    "SQLite only (no MySQL/PostgreSQL server in the sandbox); the feature catalogue bounds the schemas."),
  "C02": ("exploration",
    "bounded-exhaustive enumeration of edit sets over independently built schema graphs for the three real differs, judged by ground-truth change descriptors the generator knows",
